@@ -81,6 +81,11 @@ GROUPS = {
     'M': [('bid_internal.rs', '__mul_64x128_to_192'), ('bid_internal.rs', '__mul_64x128_to192'),
           ('bid_internal.rs', '__mul_128x128_to_256')] + [('bid128_minmax.rs', n) for n in (
         'bid128_minnum', 'bid128_maxnum', 'bid128_minnum_mag', 'bid128_maxnum_mag')],
+    # W: the four dispatch wrappers lrint / llrint / lround / llround. Their callees (the ten bid128_to_int64_* routines, see
+    # ABSTRACT) are abstract function parameters; the theorems (Impl/ImplWrap.v, Impl/ImplWrapProofs.v) bind them BY NAME and are
+    # conditional on the callees meeting their own model clause (spec64).
+    'W': [('bid128_lrint.rs', 'bid128_lrint'), ('bid128_llrint.rs', 'bid128_llrint'),
+          ('bid128_lround.rs', 'bid128_lround'), ('bid128_llround.rs', 'bid128_llround')],
 }
 # helper functions translated in addition to the routines of a group (after them, so that the text generated for the
 # routines does not move): the shared lemma files ImplMul0.v / ImplDpd.v, which the files about the pack routines import,
@@ -95,7 +100,8 @@ GROUP_SUPPORT = {'D': _PACK_SUPPORT, 'F': _PACK_SUPPORT, 'H': _PACK_SUPPORT,
 # limits to 34 (expon - 34 <= 12287). bid128_scalbn / bid128_ldexp: the same padding as a do-while: at most 33 times.
 FUEL = {('bid_get_BID128', 1): 36, ('bid128_scalbn', 1): 36, ('bid128_ldexp', 1): 36}
 # functions that are not translated but modelled as abstract function parameters of their callers (name -> file)
-ABSTRACT = {}
+ABSTRACT = {'bid128_to_int64_' + v: 'bid128_to_int64.rs' for v in (
+    'rnint', 'xrnint', 'rninta', 'xrninta', 'int', 'xint', 'floor', 'xfloor', 'ceil', 'xceil')}    # callees of group W only
 SUPPORT_FILES = ['bid_internal.rs', 'd128.rs', 'bid128.rs', 'bid_b2d.rs', 'bid_decimal_data.rs', 'bid128_scalbn.rs']
 
 PRELUDE = '''(* GENERATED by rs2v.py -- do not edit. Regenerated from the Rust sources on every run.
